@@ -3,7 +3,7 @@
 set -e
 cd "$(dirname "$0")"
 export GOFLAGS=-mod=mod GOPROXY=off GOSUMDB=off GOTOOLCHAIN=local CGO_ENABLED=0
-mkdir -p .work/bin evidence
+mkdir -p .work/bin evidence coq/gen
 (cd tools/gotrans && go build -o ../../.work/bin/gotrans .)
 ./.work/bin/gotrans -repo "${VERIF_REPO:-/repo}" -out coq/gen
 sh coq/mkproject.sh
